@@ -529,6 +529,14 @@ def _quick_scan(source: Path) -> tuple[str, int]:
     return version, num_elements
 
 
+_ELEM_DEPTH = {  # number of open ancestors, counting the document
+    'LexicalResource': 1,
+    'Lexicon': 2,
+    'LexiconExtension': 2,
+    'Extends': 3,
+}
+
+
 def _make_parser(root, version, progress):  # noqa: C901
     stack = [root]
     ELEMS = _VALID_ELEMS[version]
@@ -551,6 +559,11 @@ def _make_parser(root, version, progress):  # noqa: C901
 
         if name.startswith('External'):
             attrs['external'] = True
+
+        # the elements scan_lexicons() reports occur at one depth only;
+        # elsewhere they would silently be dropped
+        if len(stack) != _ELEM_DEPTH.get(name, len(stack)):
+            raise _unexpected(name, p)
 
         parent = stack[-1]
         key = ELEMS.get(name)
